@@ -326,7 +326,8 @@ def prices(ctx: Ctx):
         if key:
             kk = f"{row}['{key}']"
             want = f"DictOps.add_to_dict({acc}, {kk}, ({acc}[{kk}] if {acc}.get({kk}) else immutables.Map()).set({row}['charger_id'], float({row}['price_kwh'])))"
-        ctx.check(want is not None and flow.dump(p.value) == want, "D4", "DU.latest-wins", "a price row overrides the earlier entry of its (station|region, plug) and keeps the others", fn, p.end,
+        alt = want.replace(f"if {acc}.get({kk}) else", f"if {kk} in {acc} else") if want else None  # `k in acc` for the truthiness of `acc.get(k)` (an empty inner map gives the same result)
+        ctx.check(want is not None and flow.dump(p.value) in (want, alt), "D4", "DU.latest-wins", "a price row overrides the earlier entry of its (station|region, plug) and keeps the others", fn, p.end,
                   why_bad=f"returns {flow.dump(p.value)[:220]}", construct="_add_row_to_this_update:shape")
     ctx.require(n >= 2, "_add_row_to_this_update: station/geoid branches not found")
     # the rows of one step reach that per-row merge one by one, each on top of everything the earlier rows of the step produced:
